@@ -245,7 +245,10 @@ def gen_operand(rng, pool, ai, ctx, allow_sym=True, allow_shared=True):
     if u < 0.55 or not keys:
         return {'k': 'kv', 'keys': keys, 'vals': vals}
     if u < 0.62:
-        return {'k': 'fkv', 'keys': keys, 'vals': vals}
+        r = {'k': 'fkv', 'keys': keys, 'vals': vals}
+        if rng.random() < 0.15:
+            r['keys_as'] = 'list'
+        return r
     if u < 0.72:
         if rng.random() < 0.5:
             return {'k': 'map', 'keys': keys, 'vals': vals}
